@@ -11,6 +11,7 @@ Alias classes: the empty root set means *fresh* (allocated in this activation).
 from __future__ import annotations
 
 import ast
+import re
 
 from .srcmodel import PKG, FuncInfo, Package, src_of
 
@@ -234,7 +235,8 @@ class Effects:
         ann = self._ann.get(name)
         if ann is None:
             return False
-        parts = {p.strip() for p in ann.replace("Union[", "").replace("]", "").replace("|", ",").split(",")}
+        ann = re.sub(r"Literal\[[^\]]*\]", "Literal", ann)
+        parts = {p.strip() for p in ann.replace("Union[", "").replace("Optional[", "").replace("]", "").replace("|", ",").split(",")}
         return bool(parts) and all(p in SCALAR_ANN or p.startswith("Literal") or p == "None" for p in parts)
 
     def _walk(self, stmts, fi, s, env, fld):
